@@ -147,7 +147,7 @@ KANI_UNITS['tsops'] = {
 
 PROPERTIES = {
   'C02': {
-    'verus': ['tripcount', 'algebra', 'foldv', 'dce', 'ccpbin'],
+    'verus': ['tripcount', 'algebra', 'foldv', 'dce', 'ccpbin', 'loopguard'],
     'kani': ['fold', 'mirbin', 'induction'],
     'level': 'proof',
     'scope': 'arithmetic kernels only: constant folding, algebraic merging, operand reordering / comparison flipping, '
@@ -172,13 +172,15 @@ PROPERTIES = {
              'lexer scanners; panic-freedom of constant folding and trip-count analysis; parser / checker / printer not covered',
   },
   'C01': {
-    'verus': ['enumlayout', 'oparms', 'wasmlower'],
+    'verus': ['enumlayout', 'oparms', 'wasmlower', 'loopvars'],
     'verus_only': {'oparms': ['wasm_binary_arm']},
     'kani': ['wasmops'],
     'level': 'proof',
-    'scope': 'two kernels only: the WebAssembly instruction selected for each of the 16 operators (and ref.eq for reference '
-             'equality) by the real printer; the admissibility predicate of the unboxed enum-variant layout; every lowering / '
-             'specialisation pass (incl. the variant loop that uses the predicate) and the runtime library are not covered',
+    'scope': 'three kernels only: the WebAssembly instruction selected for each of the 16 operators (and ref.eq for reference '
+             'equality) by the real printer; the admissibility predicate of the unboxed enum-variant layout; the loop variables of a '
+             'lowered While (a rewritten self tail call) can be assigned one after the other without changing their simultaneous '
+             'meaning; every other lowering / specialisation pass (incl. the variant loop that uses the predicate, the tail-call '
+             'rewrite itself) and the runtime library are not covered',
   },
   'C04': {
     'verus': ['opsem', 'oparms', 'wasmlower', 'strconst'],
@@ -265,6 +267,9 @@ STANDING_ASSUMPTIONS = {
     'the induction variable is compared over mathematical integers; the in-range clause makes that equal to the wrapping run',
   ],
   'algebra': ['Verus/Z3 nonlinear arithmetic; vstd specs of i32::wrapping_mul / wrapping_add'],
+  'loopvars': ['Verus/Z3; the back ends are assumed to assign loop values in list order (or at once); alloc_temp_str returns a name the heap '
+               'has not issued before (C17) and every name in the loop came from that heap; derived Clone = structural copy; '
+               'the closure that lowers each MIR loop variable keeps its name (R3); values are abstract integers'],
   'strconst': ['Verus/Z3; JavaScript template-literal value (ECMA-262 12.9.6, escapes \\x \\u octal and line continuation unmodelled = None), '
                'WebAssembly text string literals (spec 6.3.3) and loader.js (one UTF-16 code unit per byte) are modelled by spec functions; '
                'UTF-8 of ASCII text = its codes (axiom); u8::is_ascii_alphanumeric by its documented definition; i.to_string() opaque (R3); '
@@ -276,6 +281,8 @@ STANDING_ASSUMPTIONS = {
              'behaviour: leftmost non-overlapping occurrences); chars().collect_vec() and iter().collect::<String>() keep the characters; '
              'documents are abstracted to how they were built; the lexer clause is proved on bytes, the parser / printer clauses on chars '
              '(quote and backslash are ASCII, so the two views agree on them: assumed)'],
+  'loopguard': ['Verus/Z3; the enclosing match of extract_loop_guard_structure (which statements are the comparison and the `if`) is outside '
+                'the R14 block; `single_if_stmts[0].as_break().unwrap()` is a stub (R3); values are mathematical integers (comparisons only)'],
   'ccpbin': ['Verus/Z3; contract of evaluate_bin_op assumed here and proved in units fold / foldv; checked_bind reduced to "binds the name" '
              '(its panic on re-binding is a precondition: SSA names are bound once); bitwise / shift results uninterpreted; '
              'R16 moves a match guard into its arm (Verus loses `final` of &mut parameters across guarded arms)'],
